@@ -2,7 +2,7 @@
    Model: coq/model/Centroid.v (hand-written, as the code is at the pinned commit incl. the two threshold
    treatments), tied by the correspondence check. *)
 From Coq Require Import Reals List Arith PrimFloat.
-Require Import AOV.base.Num AOV.base.NumR AOV.base.NumF AOV.base.FloatFun AOV.model.Centroid AOV.proofs.C15_proofs.
+Require Import AOV.base.Num AOV.base.NumR AOV.base.NumF AOV.base.FloatFun AOV.base.Cplx AOV.model.Centroid AOV.proofs.Mat_proofs AOV.proofs.Dft_proofs AOV.proofs.C15_proofs AOV.proofs.C15_corr.
 Import ListNotations.
 Local Open Scope R_scope.
 
@@ -51,6 +51,49 @@ Theorem C15_quad_cell_mirror : forall G K a b c d, let m := [[a; b]; [c; d]] in
   fst (quadcell (ROps G K) (rev m)) = fst (quadcell (ROps G K) m).
 Proof. exact quadcell_mirror. Qed.
 Print Assumptions C15_quad_cell_mirror.
+
+(* ---- the FFT correlation map (real arithmetic, every size and padding) ----
+   cross_correlate(x, y, p) is |circular cross-correlation| of the zero-padded images, re-centred by fftshift:
+   entry (k, l) is |sum_{i,j} x[i + k'][j + l'] y[i][j]| at lag (k', l') = ((k + R - R/2) mod R, (l + C - C/2) mod C),
+   R = ny p, C = nx p; out-of-image samples are 0 (the zero padding) *)
+Theorem C15_cross_correlate_is_the_shifted_circular_correlation : forall G K ny nx p (x y : list (list R)) k l,
+  wf_mat ny nx x -> wf_mat ny nx y -> (1 <= p)%nat ->
+  let Rr := (ny * p)%nat in let Cc := (nx * p)%nat in (k < Rr)%nat -> (l < Cc)%nat ->
+  nth l (nth k (cross_correlate (ROps G K) x y p) []) 0%R
+  = Rabs (dsum (fun i j => (ent x ((i + (k + (Rr - Rr / 2)) mod Rr) mod Rr) ((j + (l + (Cc - Cc / 2)) mod Cc) mod Cc)
+                            * ent y i j)%R) ny nx).
+Proof. exact cross_correlate_entry_real. Qed.
+Print Assumptions C15_cross_correlate_is_the_shifted_circular_correlation.
+
+(* hence the zero-lag term |<x, y>| sits at row (ny p)/2, column (nx p)/2 (integer division), uniquely, for every
+   size and padding -- odd sizes included; and for x = y it is the maximum of the map (Cauchy-Schwarz) *)
+Theorem C15_zero_lag_sits_at_the_floor_centre : forall G K ny nx p (x y : list (list R)),
+  wf_mat ny nx x -> wf_mat ny nx y -> (0 < ny)%nat -> (0 < nx)%nat -> (1 <= p)%nat ->
+  nth (nx * p / 2)%nat (nth (ny * p / 2)%nat (cross_correlate (ROps G K) x y p) []) 0%R
+  = Rabs (dsum (fun i j => (ent x i j * ent y i j)%R) ny nx) /\
+  (forall k l, (k < ny * p)%nat -> (l < nx * p)%nat ->
+     (((k + (ny * p - ny * p / 2)) mod (ny * p) = 0 /\ (l + (nx * p - nx * p / 2)) mod (nx * p) = 0) <->
+      (k = ny * p / 2 /\ l = nx * p / 2))%nat).
+Proof.
+  intros G K ny nx p x y Wx Wy Hy Hx Hp. split.
+  - apply cross_correlate_zero_lag_value; assumption.
+  - pose proof (cross_correlate_zero_lag_position G K ny nx p x y Wx Wy Hy Hx Hp) as H. cbv zeta in H.
+    destruct H as (_ & _ & _ & H). exact H.
+Qed.
+
+Theorem C15_autocorrelation_peaks_at_the_floor_centre : forall G K ny nx p (x : list (list R)) k l,
+  wf_mat ny nx x -> (1 <= p)%nat -> (k < ny * p)%nat -> (l < nx * p)%nat ->
+  (nth l (nth k (cross_correlate (ROps G K) x x p) []) 0 <= nth (nx * p / 2)%nat (nth (ny * p / 2)%nat (cross_correlate (ROps G K) x x p) []) 0)%R.
+Proof. intros G K ny nx p x k l W Hp Hk Hl. apply (cross_correlate_auto_peak G K ny nx p x k l); assumption. Qed.
+
+(* an image displaced cyclically by (s, t) from its reference displaces the whole correlation map by (s, t): the
+   peak moves by exactly the displacement *)
+Theorem C15_correlation_map_moves_with_the_image : forall G K r c s t (X Y : list (list (R * R))) k l,
+  wf_mat r c X -> wf_mat r c Y -> (s <= r)%nat -> (t <= c)%nat -> (k < r)%nat -> (l < c)%nat ->
+  nth l (nth k (fcorr2 G K (croll2 G K r c s t X) Y) []) (czero (ROps G K))
+  = nth ((l + c - t) mod c) (nth ((k + r - s) mod r) (fcorr2 G K X Y) []) (czero (ROps G K)).
+Proof. exact correlation_of_rolled_image. Qed.
+Print Assumptions C15_correlation_map_moves_with_the_image.
 
 (* correlation centroid of a centred 9x9 spot against itself: 4 for paddings 1 and 3, but 4.5 for
    padding 2 (binary64 witnesses; known finding for odd size with even padding) *)
